@@ -484,7 +484,9 @@ def judge_part2(doc, result):
                 else:
                     wire = header_of(child, bare)
                 if expected is rtexpr.NOVALUE:
-                    if isinstance(wire, str) and (wire == expr or "$response" in wire or "$request" in wire):
+                    # (only the link's own expression text counts: Hypothesis also draws string constants found in
+                    #  imported modules - including this one - so a generated value may look like some other expression)
+                    if isinstance(wire, str) and wire == expr:
                         viols.append(("C10/unresolvable-link-value-sent-literally", f"{pname} = {wire!r}"))
                     continue
                 if wire is None or str(expected) != wire:
